@@ -148,4 +148,63 @@ theorem progressBar_width (c : Counts) (n : Nat) : (progressBar c n).length = n 
 example : taskMessage [195,169,195,169,195,169,195,169,195,169,195,169] 0 10
     = .ok [195,169,195,169,195,169,46,46,46] := by decide
 
+/-! ### Whole frames (`print_progress`) -/
+
+/-- The rows written for one running task — its message and, if it produced output, its last
+    output line — are computed without panicking and each fits the terminal, for every message,
+    every output line (any bytes), every age and every width ≥ 3.  The output-line row is two
+    blanks followed by a prefix of the (decoded) line that ends on a character boundary. -/
+theorem task_rows_fit (t : FrameTask) (cols : Nat) (hc : 3 ≤ cols) :
+    ∃ rs, taskRows t cols = .ok rs ∧ (∀ r ∈ rs, r.length ≤ cols) ∧
+      (∀ l, t.lastLine = some l → ∃ m p, rs = [m, [32, 32] ++ p] ∧ p <+: l ∧ isCharBoundary l p.length = true) := by
+  obtain ⟨m, hm⟩ := taskMessage_no_panic t.message t.secs cols
+  have hfit := taskMessage_fits t.message t.secs cols m hc hm
+  unfold taskRows
+  rw [hm]
+  cases hl : t.lastLine with
+  | none =>
+    refine ⟨[m], rfl, ?_, fun l h => by cases h⟩
+    intro r hr; simp at hr; subst hr; exact hfit
+  | some l =>
+    simp only []
+    rw [if_neg (by omega)]
+    refine ⟨_, rfl, ?_, ?_⟩
+    · intro r hr
+      simp only [List.mem_cons, List.not_mem_nil, or_false] at hr
+      rcases hr with rfl | rfl
+      · exact hfit
+      · have := truncate_len l (cols - 2)
+        simp only [List.length_append, List.length_cons, List.length_nil]
+        omega
+    · intro l' h
+      cases h
+      exact ⟨m, truncate l (cols - 2), rfl, truncate_prefix l _, truncate_boundary l _⟩
+
+theorem all_task_rows_fit (ts : List FrameTask) (cols : Nat) (hc : 3 ≤ cols) :
+    ∃ rs, allTaskRows ts cols = .ok rs ∧ ∀ r ∈ rs, r.length ≤ cols := by
+  induction ts with
+  | nil => exact ⟨[], rfl, fun r hr => by cases hr⟩
+  | cons t ts ih =>
+    obtain ⟨r1, h1, f1, _⟩ := task_rows_fit t cols hc
+    obtain ⟨r2, h2, f2⟩ := ih
+    refine ⟨r1 ++ r2, by simp [allTaskRows, h1, h2], ?_⟩
+    intro r hr
+    rcases List.mem_append.mp hr with h | h
+    · exact f1 r h
+    · exact f2 r h
+
+/-- **Rendering a frame never panics**, for every count vector, every set of running tasks
+    (messages, ages, output lines of any bytes) and every width n2 accepts (≥ 10 columns, or no
+    terminal size at all: 80 is assumed). -/
+theorem frame_never_panics (c : Counts) (tasks : List FrameTask) (cols : Option Nat)
+    (hc : ∀ k, cols = some k → 10 ≤ k) : ∃ out, frame c tasks cols = .ok out := by
+  have h3 : 3 ≤ cols.getD 80 := by
+    cases cols with
+    | none => decide
+    | some k => have := hc k rfl; simp; omega
+  obtain ⟨rs, hrs, _⟩ := all_task_rows_fit (tasks.take 8) (cols.getD 80) h3
+  unfold frame
+  simp only [hrs]
+  exact ⟨_, rfl⟩
+
 end N2V.C20
